@@ -1,5 +1,39 @@
 """API driver executed inside a virtual process: one handle (Cluster object) running a script of operations."""
+import os
+import sys
+
 from jade.jobs.cluster import Cluster
+
+# "op!k": the process is killed inside the operation after k of its file writes (version file / data file of the
+# configuration, version file / data file of the job status -- one logical write each; a data file write starts with
+# the rename to its backup name).  The hook asks the controller for the kill when write k+1 is about to begin.
+_CRASH = {"left": None, "ch": None, "out": None}
+_VERSION_FILES = ("config_version.txt", "job_status_version.txt")
+_DATA_FILES = ("cluster_config.json", "job_status.json")
+
+
+def _crash_hook(event, args):
+    if _CRASH["left"] is None:
+        return
+    begins = False
+    if event == "open":
+        p, mode, flags = args
+        if isinstance(p, (str, bytes, os.PathLike)) and flags is not None and \
+                flags & (os.O_WRONLY | os.O_RDWR | os.O_CREAT | os.O_TRUNC | os.O_APPEND):
+            p = os.fspath(p)
+            p = p.decode() if isinstance(p, bytes) else p
+            begins = os.path.dirname(p) == _CRASH["out"] and os.path.basename(p) in _VERSION_FILES
+    elif event == "os.rename":
+        p = os.fspath(args[0])
+        p = p.decode() if isinstance(p, bytes) else p
+        begins = os.path.dirname(p) == _CRASH["out"] and os.path.basename(p) in _DATA_FILES
+    if not begins:
+        return
+    if _CRASH["left"] == 0:
+        _CRASH["left"] = None
+        _CRASH["ch"].call(op="api", name="crash_here")      # never returns: the controller kills this process
+        os._exit(137)
+    _CRASH["left"] -= 1
 
 
 def creator(ch, out, cfgfile):
@@ -13,7 +47,13 @@ def creator(ch, out, cfgfile):
 def handle(ch, out, ops):
     cluster = None
     promoted = False
+    _CRASH["ch"], _CRASH["out"] = ch, os.path.abspath(out)
+    sys.addaudithook(_crash_hook)
     for op in ops:
+        crash = None
+        if "!" in op:
+            op, k = op.split("!")
+            crash = int(k)
         if cluster is None and op not in ("load", "loadp"):
             break          # the load failed: there is no Cluster object to operate on
         if op == "demote" and not promoted:
@@ -22,6 +62,7 @@ def handle(ch, out, ops):
         hj = cluster.job_status.version if cluster is not None and cluster.job_status is not None else -1
         ch.call(op="api", name="cop_begin", cop=op, hcver=hc, hjver=hj, loaded=cluster is not None)
         exc, ok = "", False
+        _CRASH["left"] = crash
         try:
             if op == "load":
                 cluster, _ = Cluster.deserialize(out, deserialize_jobs=True)
@@ -47,5 +88,6 @@ def handle(ch, out, ops):
                 promoted = True
         except BaseException as e:  # noqa
             exc = type(e).__name__
+        _CRASH["left"] = None
         ch.call(op="api", name="cop_end", exc=exc, ok=bool(ok))
     return 0
